@@ -253,7 +253,7 @@ func buildReverseSearchers(
 
 	case UseReverseSuffixSet:
 		suffixLiterals := extractor.ExtractSuffixes(re)
-		searcher, err := NewReverseSuffixSetSearcher(nfaEngine, suffixLiterals, dfaConfig, hasDotStarPrefix(re))
+		searcher, err := NewReverseSuffixSetSearcher(nfaEngine, suffixLiterals, dfaConfig, hasDotStarPrefix(re) && isDotStarLiteralSet(re))
 		if err != nil {
 			result.finalStrategy = UseBoth
 		} else {
